@@ -270,6 +270,7 @@ class State:
         self.flags = []         # text repairs the tree already has (probed)
         self.nl = 0             # 1 when `.` already excludes CR (probed)
         self.blocks = []        # names of ublock2urange
+        self.mce = ""           # XSD multi-character escape letters the tree translates in pass 1 (probed; fixes/F182.diff, F183.diff)
 
 
 def flagstr(fl):
@@ -417,9 +418,9 @@ def attribute(cx, st, failing, stats):
         fid = None
         if "subtraction" in fs:
             fid = "F181"
-        elif fs & {"i", "I", "c", "C"}:
+        elif (fs & {"i", "I", "c", "C"}) - set(st.mce):
             fid = "F182"
-        elif fs & {"w", "W", "s", "S"}:
+        elif (fs & {"w", "W", "s", "S"}) - set(st.mce):
             fid = "F183"
         elif "Pblock" in fs or any(("\\p{Is%s}" % b).encode() in c.pat for b in NONTABLE_BLOCKS):
             fid = "F185"
@@ -507,10 +508,19 @@ def probe(cx):
         if lfr is not None and lfr != ("f187" in st.flags):
             cx.fail(COMP, "translator and harness disagree on the length the block substitution copies from a row",
                     {"Generated.UBlocks.lenFromRow": lfr, "rewrite_of_IsSpecials": (t5 or b"?").decode("utf-8", "replace")})
+    r6 = cx.run_impl(HARNESS, ["m%s %s rewrite - %s" % (ch, COMP, hexs(("\\" + ch).encode())) for ch in "icICwWsS"], component=COMP)
+    for ch in "icICwWsS":
+        r = r6.get("m" + ch, ["err"])
+        if r[0] == "ok" and unhex(r[1]).startswith(b"[") and unhex(r[1]).endswith(b"]"):
+            st.mce += ch
+    gm = cx.run_model(["gm %s mce" % COMP]).get("gm", ["err"])
+    if gm[0] != "ok" or sorted(gm[1] if gm[1] != "-" else "") != sorted(st.mce):
+        cx.fail(COMP, "translator and harness disagree on the multi-character escapes pass 1 translates",
+                {"Generated.UBlocks.mceTable": gm, "harness": st.mce})
     info = ri.get("p0", ["err"])
     st.nl = 1 if (info[0] == "ok" and info[2] != "2") else 0
-    cx.notes.append("tree state probed through the harness: repairs present = %s, newline convention %s, PCRE2 %s"
-                    % (flagstr(st.flags) + ("+nl" if st.nl else ""), info[2] if info[0] == "ok" else "?", info[3] if info[0] == "ok" else "?"))
+    cx.notes.append("tree state probed through the harness: repairs present = %s, multi-character escapes translated = %s, newline convention %s, PCRE2 %s"
+                    % (flagstr(st.flags) + ("+nl" if st.nl else ""), st.mce or "-", info[2] if info[0] == "ok" else "?", info[3] if info[0] == "ok" else "?"))
     return st
 
 
@@ -523,10 +533,16 @@ def rewrite_inputs(cx, st):
     for n in range(0, cx.n(5, 6) + 1):
         for t in itertools.product(B, repeat=n):
             out.append(b"".join(t))
+    # multi-character escapes (F182 / F183: replaced in pass 1 when the source has the table): every byte string of length <= 5
+    # over {\ [ ] i w $}
+    for n in range(1, 6):
+        for t in itertools.product([b"\\", b"[", b"]", b"i", b"w", b"$"], repeat=n):
+            out.append(b"".join(t))
     names = st.blocks or ["BasicLatin", "Greek", "GreekExtended", "Specials"]
     pick = ["BasicLatin", "Latin-1Supplement", "Greek", "GreekExtended", "Cyrillic", "CJKCompatibility", "CJKCompatibilityForms", "Specials", names[-2], names[len(names) // 2]]
     P = [("\\p{Is%s}" % n).encode() for n in pick]
     P += [b"\\P{IsGreek}", b"\\p{IsFoo}", b"\\p{Is}", b"\\p{IsGreek", b"\\p{Is", b"\\p{L}", b"\\p{IsGreekX}", b"\\p{IsBasicLatin }",
+          b"\\i", b"\\c", b"\\I", b"\\C", b"\\w", b"\\W", b"\\s", b"\\S", b"\\d", b"i", b"w",
           b"[", b"]", b"\\[", b"\\]", b"\\\\", b"\\", b"^", b"$", b"\\^", b"\\$", b"a", b"-", b"[^", b"}", b"{", b"p{IsGreek}", b"|", b"(", b")", b"*", b"."]
     for a in P:
         out.append(a)
